@@ -103,6 +103,21 @@ def subharnesses(tier):
                 'shape': 'two', 'res': [2, 5], 'mu': [None, None],
                 'asg': [0, 0, 0], 'moves': moves}
         subs.append(('two-D1-moves-%s' % tag, spec))
+    # an allocations event rewrites an allocation that is already loaded: the
+    # cap is withdrawn / introduced, the rank changes
+    for mu0, mu1, tag in ((1, None, 'cap_withdrawn'), (None, 1, 'cap_added'),
+                          (1.5, 2, 'cap_raised')):
+        allocs = [{'path': [], 'label': '_default'},
+                  {'path': ['a'], 'label': '_default', 'reserved': [2],
+                   'rank': 100, 'rank_adjustment': 10,
+                   'max_utilization': mu0}]
+        apps = [{'place': None, 'alloc': ['_default', 'a']} for _ in range(3)]
+        spec = {'topo': 'T1', 'D': 1,
+                'servers': [{'capacity': [BIG]}, {'capacity': [BIG]}],
+                'allocs': allocs, 'apps': apps, 'prio_order': 'free',
+                'shape': 'one', 'res': [2], 'mu': [mu1], 'asg': [0, 0, 0],
+                'updates': [[['_default', 'a'], [[2], 90, 5, mu1]]]}
+        subs.append(('one-D1-update-%s' % tag, spec))
     return subs
 
 
@@ -116,6 +131,9 @@ def harness(S, spec):
     for (i, key) in spec.get('moves', []):
         W.cell.add_app(W.allocs[tuple(key)], W.apps[i])
         S.reach('moved_between_allocations')
+    for key, vals in spec.get('updates', []):
+        g1.apply_event(W, ('alloc_update', key, vals))
+        S.reach('allocation_updated')
     cell = W.cell
     pre_placed = {a.name: a.server is not None for a in W.apps}
     placement = cell.schedule()
